@@ -2,6 +2,74 @@ use rand::Rng;
 
 /// Generates a random u64. This is needed for both Zobrist tables and magic bitboard generation.
 pub fn generate_random_u64() -> u64 {
+    #[cfg(chess_verif)]
+    if let Some(value) = verif_seam::next_draw() {
+        return value;
+    }
     let mut rng = rand::thread_rng();
     rng.gen::<u64>()
+}
+
+/// Verification seam (off unless built with `--cfg chess_verif`): lets a
+/// simulator own the build-time entropy. With `CHESS_VERIF_BUILD_SEED=<u64>` the
+/// draws come from a SplitMix64 stream; `CHESS_VERIF_BUILD_FAULTS=dup@<i>,zero@<j>`
+/// makes draw number i repeat the previous draw / draw number j return 0.
+#[cfg(chess_verif)]
+mod verif_seam {
+    use std::sync::Mutex;
+
+    struct Stream {
+        state: u64,
+        draws: u64,
+        last: u64,
+        dup_at: Vec<u64>,
+        zero_at: Vec<u64>,
+    }
+
+    static STREAM: Mutex<Option<Option<Stream>>> = Mutex::new(None);
+
+    fn init() -> Option<Stream> {
+        let seed: u64 = std::env::var("CHESS_VERIF_BUILD_SEED").ok()?.trim().parse().ok()?;
+        let mut dup_at = Vec::new();
+        let mut zero_at = Vec::new();
+        if let Ok(faults) = std::env::var("CHESS_VERIF_BUILD_FAULTS") {
+            for item in faults.split(',') {
+                let mut parts = item.trim().split('@');
+                match (parts.next(), parts.next().and_then(|n| n.parse::<u64>().ok())) {
+                    (Some("dup"), Some(n)) => dup_at.push(n),
+                    (Some("zero"), Some(n)) => zero_at.push(n),
+                    _ => {}
+                }
+            }
+        }
+        Some(Stream {
+            state: seed,
+            draws: 0,
+            last: 0,
+            dup_at,
+            zero_at,
+        })
+    }
+
+    pub fn next_draw() -> Option<u64> {
+        let mut guard = STREAM.lock().unwrap();
+        let stream = guard.get_or_insert_with(init).as_mut()?;
+        // SplitMix64
+        stream.state = stream.state.wrapping_add(0x9E37_79B9_7F4A_7C15);
+        let mut z = stream.state;
+        z = (z ^ (z >> 30)).wrapping_mul(0xBF58_476D_1CE4_E5B9);
+        z = (z ^ (z >> 27)).wrapping_mul(0x94D0_49BB_1331_11EB);
+        z ^= z >> 31;
+        let index = stream.draws;
+        stream.draws += 1;
+        let value = if stream.zero_at.contains(&index) {
+            0
+        } else if stream.dup_at.contains(&index) {
+            stream.last
+        } else {
+            z
+        };
+        stream.last = value;
+        Some(value)
+    }
 }
